@@ -64,7 +64,7 @@ Install(x, c, s, a, nm, how) ==
 
 \* ------------------------------------------------------------------ bind()                      llc.py:724-781
 \* arg: [t |-> "none"] | [t |-> "addr", a |-> Int] | [t |-> "name", n |-> name] | [t |-> "other"]
-BindR(x, c, s, arg) ==
+BindR(x, c, s, arg, fx) ==
     LET k == x.sk[c][s] IN
     IF k.addr # NoAddr THEN [w |-> x, res |-> "Invalid"]                                   \* EINVAL
     ELSE CASE arg.t = "none" ->
@@ -81,14 +81,15 @@ BindR(x, c, s, arg) ==
               IF arg.n = BadName THEN [w |-> x, res |-> "Fault"]                           \* service_name_format
               ELSE IF x.snl[c][arg.n] # 0 THEN [w |-> x, res |-> "InUse"]                  \* snl.get(name) is not None
               ELSE IF arg.n = "wk"
-                   THEN IF WksCheck /\ Occupied(x, c, WksAddr) THEN [w |-> x, res |-> "InUse"]
+                   THEN IF fx.wks /\ Occupied(x, c, WksAddr) THEN [w |-> x, res |-> "InUse"]
                         ELSE [w |-> Install(x, c, s, WksAddr, "wk", "name"), res |-> "OK"]   \* sap[addr] not looked at
                    ELSE LET a == FirstFree(x, c, Named) IN
                         IF a = NoAddr THEN [w |-> x, res |-> "Exhausted"]                  \* EADDRNOTAVAIL
                         ELSE [w |-> Install(x, c, s, a, arg.n, "name"), res |-> "OK"]
            [] OTHER -> [w |-> x, res |-> "Fault"]
 
-AutoBind(x, c, s) == IF x.sk[c][s].addr # NoAddr THEN [w |-> x, res |-> "OK"] ELSE BindR(x, c, s, [t |-> "none"])
+NoFix == [wks |-> FALSE, snl |-> FALSE]
+AutoBind(x, c, s) == IF x.sk[c][s].addr # NoAddr THEN [w |-> x, res |-> "OK"] ELSE BindR(x, c, s, [t |-> "none"], NoFix)
 
 \* ------------------------------------------------------------------ listen()                    llc.py:794, tco.py listen
 ListenR(x, c, s) ==
@@ -122,7 +123,7 @@ ConnectR(x, c, s, dst) ==
          IN IF dst.t = "name" /\ (a = 0 \/ ~Occupied(y, p, a)) THEN [w |-> y, res |-> "Refused", reach |-> 0]      \* DM 02h via SD
             ELSE LET l == FirstWhere(y, p, y.sap[p][a], LAMBDA q : q.st = "listen") IN                            \* SAP.enqueue
                  IF l = 0 THEN [w |-> y, res |-> "Refused", reach |-> 0]                                          \* DM 02h
-                 ELSE IF Len(y.sk[p][l].rq) >= Backlog THEN [w |-> y, res |-> "Refused", reach |-> l]             \* DM 20h
+                 ELSE IF Len(y.sk[p][l].rq) >= Backlog THEN [w |-> y, res |-> "Busy", reach |-> 0]                \* DM 20h
                  ELSE [w |-> [y EXCEPT !.sk[p][l].rq = Append(@, [m |-> s, ssap |-> me, to |-> a]),
                                        !.sk[c][s].st = "connecting"],
                        res |-> "Pending", reach |-> l]
@@ -164,20 +165,20 @@ RecvFromR(x, c, s) ==
 \* ------------------------------------------------------------------ resolve()                   llc.py:175-217
 \* the peer answers from its name list only; the answer is cached for the life of the link
 ResolveR(x, c, n) ==
-    IF x.rsnl[c][n] # NoAddr THEN [w |-> x, res |-> x.rsnl[c][n], cached |-> TRUE]
-    ELSE LET a == x.snl[Peer(c)][n] IN [w |-> [x EXCEPT !.rsnl[c][n] = a], res |-> a, cached |-> FALSE]
+    IF x.rsnl[c][n] # NoAddr THEN [w |-> x, res |-> "OK", val |-> x.rsnl[c][n], cached |-> TRUE]
+    ELSE LET a == x.snl[Peer(c)][n] IN [w |-> [x EXCEPT !.rsnl[c][n] = a], res |-> "OK", val |-> a, cached |-> FALSE]
 
 \* ------------------------------------------------------------------ close()                     llc.py:873, 87-97, tco.py close
 \* a closed socket is inert (every call on it fails); its record is reduced to kind + "shut"
 Shut(k) == [NewSock(k.kind) EXCEPT !.st = "shut"]
-Drop(x, c, s) ==        \* remove_socket
+Drop(x, c, s, fx) ==    \* remove_socket
     LET a == x.sk[c][s].addr
         rest == SelectSeq(x.sap[c][a], LAMBDA i : i # s)
     IN [x EXCEPT !.sk[c][s] = Shut(@),
                  !.sap[c][a] = rest,
-                 !.snl[c] = IF SnlClean /\ rest = <<>> THEN [n \in DOMAIN @ |-> IF @[n] = a THEN 0 ELSE @[n]] ELSE @]
+                 !.snl[c] = IF fx.snl /\ rest = <<>> THEN [n \in DOMAIN @ |-> IF @[n] = a THEN 0 ELSE @[n]] ELSE @]
 
-CloseR(x, c, s) ==
+CloseR(x, c, s, fx) ==
     LET k == x.sk[c][s]  p == Peer(c) IN
     IF k.addr = NoAddr THEN [w |-> [x EXCEPT !.sk[c][s] = Shut(@)], res |-> "OK"]
     ELSE IF ~Occupied(x, c, k.addr) THEN [w |-> x, res |-> "Crash"]          \* sap[addr] is None: AttributeError
@@ -185,16 +186,18 @@ CloseR(x, c, s) ==
     THEN \* DISC to the peer: the connection's other end goes to CLOSE_WAIT and answers DM
          LET t == FirstWhere(x, p, x.sap[p][k.peer], LAMBDA q : q.peer = k.addr \/ q.peer = NoAddr)
              y == IF t # 0 /\ x.sk[p][t].st = "conn" THEN [x EXCEPT !.sk[p][t].st = "cw"] ELSE x
-         IN [w |-> Drop(y, c, s), res |-> "OK"]
-    ELSE [w |-> Drop(x, c, s), res |-> "OK"]
+         IN [w |-> Drop(y, c, s, fx), res |-> "OK"]
+    ELSE [w |-> Drop(x, c, s, fx), res |-> "OK"]
 
 \* ------------------------------------------------------------------ properties (C17)
 Ids(x, c) == 1..Len(x.sk[c])
 InList(x, c, a, i) == \E j \in DOMAIN x.sap[c][a] : x.sap[c][a][j] = i
 
 \* a socket sits in at most one access point, and that is the one it names
-OneAddrPerSocketP(x) == \A c \in Sides : \A i \in Ids(x, c) : \A a \in Addrs :
-                            InList(x, c, a, i) => (x.sk[c][i].addr = a /\ \A b \in Addrs : InList(x, c, b, i) => b = a)
+AllIds(x, c) == FoldLeft(LAMBDA acc, a : acc \o x.sap[c][a], <<>>, [i \in 1..NSap |-> i - 1])
+OneAddrPerSocketP(x) == \A c \in Sides :
+                            /\ \A a \in Addrs : \A j \in DOMAIN x.sap[c][a] : x.sk[c][x.sap[c][a][j]].addr = a
+                            /\ Cardinality({AllIds(x, c)[j] : j \in DOMAIN AllIds(x, c)}) = Len(AllIds(x, c))
 \* an address is never handed out twice: live sockets that name the same address all sit in its access point and
 \* at most one of them got there by bind() - the others were made by accept() on the listener there
 NoDoubleAllocP(x) == \A c \in Sides : \A i \in Ids(x, c) :
@@ -219,13 +222,13 @@ DatagramP(x) == \A c \in Sides : \A i \in Ids(x, c) : x.sk[c][i].kind # "dlc" =>
 BoundUnder(x, c, n) == {i \in Ids(x, c) : Live(x.sk[c][i]) /\ x.sk[c][i].name = n}
 \* step properties, on the record of the operation just performed (old world o, new world x)
 ResolveRightP(o, l) == (l.op = "Resolve" /\ ~l.cached) =>
-                          /\ l.res # 0 => \E i \in BoundUnder(o, Peer(l.c), l.n) : InList(o, Peer(l.c), l.res, i)
-                          /\ l.res = 0 => BoundUnder(o, Peer(l.c), l.n) = {}
+                          /\ l.val # 0 => \E i \in BoundUnder(o, Peer(l.c), l.n) : InList(o, Peer(l.c), l.val, i)
+                          /\ l.val = 0 => BoundUnder(o, Peer(l.c), l.n) = {}
 InUseRightP(o, l) == /\ (l.op = "BindName" /\ l.res = "InUse") => BoundUnder(o, l.c, l.n) # {} \/ (l.n = "wk" /\ Occupied(o, l.c, WksAddr))
                      /\ (l.op = "BindAddr" /\ l.res = "InUse") => Occupied(o, l.c, l.a)
 ConnectByNameP(o, l) == (l.op = "ConnectName" /\ l.kind = "dlc") =>
                           /\ l.reach # 0 => (l.reach \in BoundUnder(o, Peer(l.c), l.n) /\ o.sk[Peer(l.c)][l.reach].st = "listen")
-                          /\ l.res = "Refused" /\ l.reach = 0 =>
+                          /\ l.res = "Refused" =>
                                 ~\E i \in BoundUnder(o, Peer(l.c), l.n) : o.sk[Peer(l.c)][i].st = "listen"
 DatagramStepP(o, x, l) == (l.op = "SendTo" /\ l.got # 0) =>
                             LET p == Peer(l.c)  k == x.sk[p][l.got] IN
@@ -249,7 +252,7 @@ World0 == [sk |-> [c \in Sides |-> <<>>],
            sap |-> [c \in Sides |-> [a \in Addrs |-> <<>>]],
            snl |-> [c \in Sides |-> [n \in Names |-> 0]],
            rsnl |-> [c \in Sides |-> [n \in Names |-> NoAddr]]]
-L0 == [op |-> "Init", c |-> "A", s |-> 0, n |-> "", a |-> 0, dst |-> 0, m |-> 0, kind |-> "", res |-> "OK",
+L0 == [op |-> "Init", c |-> "A", s |-> 0, n |-> "", a |-> 0, dst |-> 0, m |-> 0, kind |-> "", res |-> "OK", val |-> 0,
        reach |-> 0, got |-> 0, cached |-> FALSE]
 Rec(op, c, s, o) == [L0 EXCEPT !.op = op, !.c = c, !.s = s,
                                !.kind = IF s \in 1..Len(o.sk[c]) THEN o.sk[c][s].kind ELSE ""]
@@ -262,19 +265,21 @@ Alive(c, s) == Live(w.sk[c][s])
 Created(c) == Cardinality({i \in 1..Len(w.sk[c]) : w.sk[c][i].origin # "accept"})
 Socket(c, k) ==
     /\ Can(c, "Socket") /\ Len(w.sk[c]) < MaxSock[c]
-    /\ Created(c) < Len(KindSeq[c]) /\ k = KindSeq[c][Created(c) + 1]
+    /\ KindSeq[c] # <<>> => (Created(c) < Len(KindSeq[c]) /\ k = KindSeq[c][Created(c) + 1])      \* <<>>: any kind
     /\ w' = [w EXCEPT !.sk[c] = Append(@, NewSock(k))]
     /\ last' = [Rec("Socket", c, 0, w) EXCEPT !.kind = k]
 
+Fix == [wks |-> WksCheck, snl |-> SnlClean]
 BindNone(c, s) ==
     /\ Can(c, "BindNone") /\ Alive(c, s)
-    /\ LET r == BindR(w, c, s, [t |-> "none"]) IN w' = r.w /\ last' = [Rec("BindNone", c, s, w) EXCEPT !.res = r.res]
+    /\ LET r == BindR(w, c, s, [t |-> "none"], NoFix) IN w' = r.w /\ last' = [Rec("BindNone", c, s, w) EXCEPT !.res = r.res]
 BindAddr(c, s, a) ==
     /\ Can(c, "BindAddr") /\ Alive(c, s)
-    /\ LET r == BindR(w, c, s, [t |-> "addr", a |-> a]) IN w' = r.w /\ last' = [Rec("BindAddr", c, s, w) EXCEPT !.res = r.res, !.a = a]
-BindName(c, s, n) ==
+    /\ LET r == BindR(w, c, s, [t |-> "addr", a |-> a], NoFix) IN w' = r.w /\ last' = [Rec("BindAddr", c, s, w) EXCEPT !.res = r.res, !.a = a]
+BindNameF(c, s, n, fx) ==
     /\ Can(c, "BindName") /\ Alive(c, s)
-    /\ LET r == BindR(w, c, s, [t |-> "name", n |-> n]) IN w' = r.w /\ last' = [Rec("BindName", c, s, w) EXCEPT !.res = r.res, !.n = n]
+    /\ LET r == BindR(w, c, s, [t |-> "name", n |-> n], fx) IN w' = r.w /\ last' = [Rec("BindName", c, s, w) EXCEPT !.res = r.res, !.n = n]
+BindName(c, s, n) == BindNameF(c, s, n, Fix)
 Listen(c, s) ==
     /\ Can(c, "Listen") /\ Alive(c, s) /\ w.sk[c][s].kind = "dlc"
     /\ LET r == ListenR(w, c, s) IN w' = r.w /\ last' = [Rec("Listen", c, s, w) EXCEPT !.res = r.res]
@@ -306,12 +311,13 @@ RecvFrom(c, s) ==
 Resolve(c, n) ==
     /\ Can(c, "Resolve")
     /\ LET r == ResolveR(w, c, n)
-       IN w' = r.w /\ last' = [Rec("Resolve", c, 0, w) EXCEPT !.res = r.res, !.n = n, !.cached = r.cached]
+       IN w' = r.w /\ last' = [Rec("Resolve", c, 0, w) EXCEPT !.res = r.res, !.val = r.val, !.n = n, !.cached = r.cached]
 \* not while the socket's owner is blocked in connect(), not on a listener with unanswered connection requests
-Close(c, s) ==
+CloseF(c, s, fx) ==
     /\ Can(c, "Close") /\ Alive(c, s) /\ w.sk[c][s].st # "connecting"
     /\ ~(w.sk[c][s].st = "listen" /\ w.sk[c][s].rq # <<>>)
-    /\ LET r == CloseR(w, c, s) IN w' = r.w /\ last' = [Rec("Close", c, s, w) EXCEPT !.res = r.res]
+    /\ LET r == CloseR(w, c, s, fx) IN w' = r.w /\ last' = [Rec("Close", c, s, w) EXCEPT !.res = r.res]
+Close(c, s) == CloseF(c, s, Fix)
 
 Next == \E c \in Sides :
           \/ \E k \in {"ldl", "dlc", "raw"} : Socket(c, k)
@@ -337,7 +343,7 @@ W_NamedExhausted == ~(last.op = "BindName" /\ last.res = "Exhausted")
 W_DynExhausted   == ~(last.op = "BindNone" /\ last.res = "Exhausted")
 W_Shared         == ~(\E c \in Sides : \E a \in Addrs : Len(w.sap[c][a]) >= 2)
 W_Delivered      == ~(last.op = "RecvFrom" /\ last.res = "OK")
-W_Resolved       == ~(last.op = "Resolve" /\ last.res \notin {0, 1})
+W_Resolved       == ~(last.op = "Resolve" /\ last.val \notin {0, 1})
 W_ByName         == ~(last.op = "Accept" /\ w.sk[last.c][last.s].name # "")
 W_WksBound       == ~(last.op = "BindName" /\ last.n = "wk" /\ last.res = "OK")
 W_Access         == ~(last.op = "BindAddr" /\ last.res = "Access")
